@@ -309,6 +309,17 @@ theorem no_silent_drop_now (ops : Ops σ) (p : List (Core σ)) (st : St σ)
   refine ⟨no_silent_drop Quirks.now rfl rfl rfl ops p st h e he, ?_⟩
   exact no_swallow_body Quirks.now rfl ops {} p {} st h
 
+/-- `no_silent_drop_full_spec` — the FULL specification (media merging included), arbitrary
+programs: when the compilation succeeds, every entry of the evaluation log is in the flattened
+output (paths compared after merging adjacent `@media` steps), and nothing was lost. -/
+theorem no_silent_drop_full_spec (ops : Ops σ) (hassoc : Assoc ops) (p : List (Core σ)) (st : St σ)
+    (h : emitTop Quirks.spec ops p = .ok st) (e : Entry σ)
+    (he : e ∈ logBody Quirks.spec ops {} p []) :
+    nE ops e ∈ NV ops (flatItems [] st.root) ∧ st.lost = 0 := by
+  refine ⟨?_, no_swallow_body Quirks.spec rfl ops {} p {} st h⟩
+  rw [(C20.bubble_preserves_order_spec ops hassoc p st h).1]
+  exact List.mem_map_of_mem he
+
 /-! ### The deviation: `closeSwallows` -/
 
 /-- witness `2 { 3: { @media 1 { 4: 5 } } }` (an `@media` inside a nested-property block) -/
